@@ -281,3 +281,10 @@ def run_k2(chk, n_tus, cases_per_tu, scripts_per_case, size_range=(2, 8), cfg="p
                 chk.violation("k2/corr/%s" % kinds, rp, no_input=True,
                               text="%s | pre=%d %s | impl=%s | model=%s" % (to_model(e), pre, sc, ci[:200], cm[:200]))
     return stats
+
+
+def standard_k2(chk):
+    """The K2 sample shared by the properties decided through the Calc model (C01, C02, C04, C05, C11, C12):
+    same seed -> same translation units (cached), so the second property to run pays nothing."""
+    quick = chk.tier == "quick"
+    return run_k2(chk, n_tus=6 if quick else 40, cases_per_tu=8, scripts_per_case=24 if quick else 60)
